@@ -45,14 +45,15 @@ def is_terminal_closure(c):
 def hoist_calls(body):
     out = []
     for c in S.walk(body):
-        if c["k"] == "Call" and S.callee_name(c) in HOIST and len(c["args"]) >= 4:
+        # free function `anf(env, gensym, e, k)` or method `ctx.anf(e, k)`: the continuation is the last argument, the child the one before
+        if c["k"] in ("Call", "MethodCall") and S.callee_name(c) in HOIST and len(c["args"]) >= 2:
             out.append(c)
     return out
 
 
 def subject(call, aliases):
     """which child binding the hoisting call normalises (3rd argument)"""
-    ids = S.idents(call["args"][2])
+    ids = S.idents(call["args"][-2])
     out = set()
     for i in ids:
         out.add(aliases.get(i, i))
@@ -60,7 +61,7 @@ def subject(call, aliases):
 
 
 def cont_closure(call):
-    a = call["args"][3]
+    a = call["args"][-1]
     for n in S.walk(a):
         if n["k"] == "Closure":
             return n
